@@ -320,6 +320,12 @@ def h_fit(cx, voltage, period, stay, sym_voltage):
     max_energy = max_rate * (voltage if not sym_voltage else 500) / 1000 * stay * period / 60
     req = cx.real("requested_energy", lo=0, lo_open=True, hi=100)
     try:
+        # history: the same (energy, stay, period) was fitted before for a site with another voltage (an earlier simulation in the
+        # same process); the fit that is judged is the second call
+        try:
+            B.batt_cap_fn(req, stay, V * 1.25 if sym_voltage else {208: 240, 240: 208, 120: 277}.get(voltage, voltage + 32), period)
+        except ValueError:
+            pass
         cap, init = B.batt_cap_fn(req, stay, V, period)
     except ValueError:
         cx.tag("fit:no_feasible_size")
